@@ -322,10 +322,24 @@ def gen_case(rng: common.Rng, shape: str | None = None, kind: str | None = None,
             m.pop(k, None)
         m["inner"] = inner
         m["cls"] = "MDAChain"
+    m = case["mda"]
+    composed = m["cls"] in ("MDAGSNewton", "MDASequential") or m.get("inner") == "MDAGSNewton"
+    if composed and m["scaling"].startswith(("initial", "scaled")) and Fraction(m["tol"]) < Fraction(1, 2**16):
+        # the second MDA of a sequence starts next to the solution: its *initial* residual is tiny and a
+        # tolerance relative to it is below the resolution of floats (not a property of the algorithms)
+        m["tol"] = rat(Fraction(1, 2 ** rng.pick([10, 16])))
+    if m["scaling"].startswith(("initial", "scaled")) and Fraction(m["tol"]) < Fraction(1, 2**30):
+        m["tol"] = rat(Fraction(1, 2**30))
     n_runs = 2 if case["mda"]["warm"] or rng.chance(0.2) else 1
     runs = []
+    seen_x: set[tuple[str, ...]] = set()
     for _ in range(n_runs):
-        run: dict[str, Any] = {"x": [rat(rng.dyadic(-4, 4, 2)) for _ in range(sizes["x"])]}
+        while True:
+            xv = tuple(rat(rng.dyadic(-4, 4, 2)) for _ in range(sizes["x"]))
+            if xv not in seen_x:
+                break
+        seen_x.add(xv)
+        run: dict[str, Any] = {"x": list(xv)}
         if rng.chance(0.5):
             # explicit starting values of the couplings
             run["y0"] = {
@@ -459,6 +473,65 @@ def case_class(case: dict[str, Any]) -> str:
     return f"{cls}:{m['accel']}:{relax}"
 
 
+def sqrt_up(q: Fraction) -> Fraction:
+    """A rational upper bound of sqrt(q), tight to 2^-40 relative."""
+    if q <= 0:
+        return Fraction(0)
+    sh = 2 * max(0, 64 - (q.numerator.bit_length() - q.denominator.bit_length()) // 2)
+    v = math.isqrt((q.numerator << sh) // q.denominator) + 1
+    return Fraction(v, 2 ** (sh // 2))
+
+
+def documented_scale(case: dict[str, Any], sysm: System, run: dict[str, Any]) -> Fraction:
+    """Upper bound of |R_k|_inf / tol implied by the documented stop criterion `ResidualScaling` of an
+    elementary solver, from the first residual R_0 it computes (documented algorithms: Jacobi / Newton evaluate
+    all the disciplines at the starting point; Gauss-Seidel first executes the disciplines once in the listed
+    order, R_0 is the change of the couplings during the next sweep). Exact (Fraction) for affine systems."""
+    sizes = sysm.sizes
+    exact = sysm.linear
+    conv = (lambda t: Fraction(t)) if exact else (lambda t: float(Fraction(t)))
+    data: dict[str, list] = {"x": [conv(t) for t in run["x"]]}
+    for o in sysm.outputs:
+        y0 = run.get("y0", {}).get(o)
+        data[o] = [conv(t) for t in y0] if y0 is not None else [conv(0)] * sizes[o]
+
+    def jacobi(d):
+        new = dict(d)
+        for k in range(len(sysm.discs)):
+            new.update(sysm.eval_disc(k, d, exact))
+        return new
+
+    def seidel(d):
+        new = dict(d)
+        for k in case["order"]:
+            new.update(sysm.eval_disc(k, new, exact))
+        return new
+
+    if case["mda"]["cls"] == "MDAGaussSeidel":
+        before = seidel(data)
+        after = seidel(before)
+    else:
+        before, after = data, jacobi(data)
+    r0 = {o: [F(a) - F(b) for a, b in zip(after[o], before[o])] for o in sysm.couplings}
+    flat = [v for o in sysm.couplings for v in r0[o]]
+    n = len(flat)
+    nzf = lambda t: t if t != 0 else Fraction(1)  # noqa: E731
+    sc = case["mda"]["scaling"]
+    if sc == "no_scaling":
+        return Fraction(1)
+    if sc == "initial_residual_norm":
+        return sqrt_up(nzf(sum(v * v for v in flat)))
+    if sc == "initial_subresidual_norm":
+        return max(sqrt_up(nzf(sum(v * v for v in r0[o]))) for o in sysm.couplings)
+    if sc == "n_coupling_variables":
+        return sqrt_up(Fraction(n))
+    if sc == "initial_residual_component":
+        return max(abs(nzf(v)) for v in flat)
+    if sc == "scaled_initial_residual_component":
+        return sqrt_up(Fraction(n)) * max(abs(nzf(v)) for v in flat)
+    raise ValueError(sc)
+
+
 def oracle(case: dict[str, Any], obs: dict[str, Any]) -> list[tuple[str, str]]:
     """Clauses of the property violated by the observed behaviour: list of (key, message)."""
     bad: list[tuple[str, str]] = []
@@ -471,11 +544,18 @@ def oracle(case: dict[str, Any], obs: dict[str, Any]) -> list[tuple[str, str]]:
     kb = sysm.lipschitz_bound()
     n_c = sum(sizes[o] for o in sysm.outputs)
     dmax = Fraction(0)
+    tight: Fraction | None = None
     prev_out: dict[str, list[Fraction]] | None = None
     for ridx, (run, r) in enumerate(zip(case["runs"], obs["runs"])):
         tag = f"run{ridx}"
         if "exc" in r:
             bad.append((f"{kc}:raises", f"{tag}: execute raised {r['exc']}"))
+            prev_out = None
+            continue
+        if "broyden" in kc and r.get("reported_normed") is not None and not (r["reported_normed"] <= float(tol)):
+            # SciPy's Broyden iterations are not guaranteed to converge; GEMSEO reports the failure
+            # (normed residual above the tolerance + warning): nothing is claimed about the returned data
+            obs.setdefault("not_judged", []).append(tag)
             prev_out = None
             continue
         ext = {"x": [Fraction(t) for t in run["x"]]}
@@ -498,6 +578,14 @@ def oracle(case: dict[str, Any], obs: dict[str, Any]) -> list[tuple[str, str]]:
         # generous upper bound of every residual scale of the code (see notes/C06.md)
         scale = Fraction(math.isqrt(n_c) + 1) * max(Fraction(1), (1 + kb) * dmax)
         bound = tol * scale
+        sol_bound = 2 * bound
+        if tight is None and ridx == 0 and case["mda"]["cls"] in SOLVER_CLASSES:
+            tight = tol * documented_scale(case, sysm, run)
+        if tight is not None:
+            # elementary solvers: the documented scaling of the first residual ever computed is known exactly;
+            # the returned data are G(y) with |G(y) - y| <= tight, hence (K-Lipschitz disciplines):
+            bound = kb * tight * (1 + Fraction(1, 2**20))
+            sol_bound = kb / (1 - kb) * tight * (1 + Fraction(1, 2**20))
         out = r["out"]
         vals: dict[str, list[Fraction]] = {}
         missing = False
@@ -531,8 +619,8 @@ def oracle(case: dict[str, Any], obs: dict[str, Any]) -> list[tuple[str, str]]:
         # clause 2: agreement with the exact solution: K/(1-K) <= 1 for K <= 1/2; factor 2 covers 1/(1-K)
         dist = max(abs(a - b) for o in sysm.outputs for a, b in zip(vals[o], sol[o]))
         ref_slack = slack if sysm.linear else slack + Fraction(1, 10**12)
-        if not (dist <= 2 * bound + ref_slack):
-            bad.append((f"{kc}:solution", f"{tag}: returned couplings are at distance {float(dist):.3e} from the exact solution > 2*tol*scale = {float(2 * bound):.3e}"))
+        if not (dist <= sol_bound + ref_slack):
+            bad.append((f"{kc}:solution", f"{tag}: returned couplings are at distance {float(dist):.3e} from the exact solution > K/(1-K)*tol*scale = {float(sol_bound):.3e}"))
         prev_out = vals
     return bad
 
@@ -541,7 +629,7 @@ def oracle(case: dict[str, Any], obs: dict[str, Any]) -> list[tuple[str, str]]:
 
 ACCEL_TOKEN = {"NoTransformation": "none", "Aitken": "aitken", "Secant": "secant", "AlternateDeltaSquared": "adsq"}
 ALGO_TOKEN = {"MDAJacobi": "j", "MDAGaussSeidel": "g", "MDANewtonRaphson": "n"}
-ACCEL_CAP = 7  # replay budget for the accelerated runs (exact rationals triple in size at every Aitken step)
+ACCEL_CAP = 6  # replay budget for the accelerated runs (exact rationals triple in size at every Aitken step)
 
 
 def replayable(case: dict[str, Any]) -> bool:
@@ -712,3 +800,282 @@ def compare_with_model(case: dict[str, Any], obs: dict[str, Any], answers: list[
         if diffs:
             break
     return diffs
+
+
+# --------------------------------------------------------------------------- failing-input search, shrinking
+
+
+def _with(case: dict[str, Any], **mda_changes: Any) -> dict[str, Any]:
+    c = json.loads(json.dumps(case))
+    c["mda"].update(mda_changes)
+    return c
+
+
+def simplifications(case: dict[str, Any]):
+    """Smaller variants of a case (each one is still inside the property's quantifier)."""
+    m = case["mda"]
+    if len(case["runs"]) > 1:
+        c = json.loads(json.dumps(case))
+        c["runs"] = c["runs"][:1]
+        c["mda"]["warm"] = False
+        yield c
+        c = json.loads(json.dumps(case))
+        c["runs"] = c["runs"][1:]
+        c["mda"]["warm"] = False
+        yield c
+    if m["warm"]:
+        yield _with(case, warm=False)
+    if m["scaling"] != "no_scaling":
+        yield _with(case, scaling="no_scaling")
+    if m["accel"] != "NoTransformation":
+        yield _with(case, accel="NoTransformation")
+    if m["omega"] != "1":
+        yield _with(case, omega="1")
+    for run_i, run in enumerate(case["runs"]):
+        if run.get("y0"):
+            c = json.loads(json.dumps(case))
+            c["runs"][run_i].pop("y0")
+            yield c
+    if case["order"] != sorted(case["order"]):
+        c = json.loads(json.dumps(case))
+        c["order"] = sorted(c["order"])
+        yield c
+    # shrink the variable sizes to 1 (keep the first component of everything)
+    if any(s > 1 for s in case["vars"].values()):
+        c = json.loads(json.dumps(case))
+        for v in c["vars"]:
+            c["vars"][v] = 1
+        for d in c["discs"]:
+            for spec in d["outs"].values():
+                spec["c"] = spec["c"][:1]
+                spec["m"] = {i: [row[:1] for row in mat[:1]] for i, mat in spec["m"].items()}
+        for run in c["runs"]:
+            run["x"] = run["x"][:1]
+            if "y0" in run:
+                run["y0"] = {k: v[:1] for k, v in run["y0"].items()}
+        yield c
+    if Fraction(m["tol"]) < Fraction(1, 2**10):
+        yield _with(case, tol="1/1024")
+
+
+def in_scope(case: dict[str, Any]) -> bool:
+    """Shadow validity check of a (shrunk / neighbour) case: still a well-posed contractive system."""
+    try:
+        sysm = System(case)
+        kb = sysm.lipschitz_bound()
+        if not kb <= Fraction(1, 2):
+            return False
+        w = Fraction(case["mda"]["omega"])
+        if not (0 < w <= 2) or not abs(1 - w) + w * kb <= Fraction(7, 8):
+            return False
+        xs = [tuple(r["x"]) for r in case["runs"]]
+        return len(set(xs)) == len(xs)
+    except Exception:  # noqa: BLE001
+        return False
+
+
+def shrink_case(case: dict[str, Any], key: str, budget: int = 40) -> dict[str, Any]:
+    cur = case
+    calls = 0
+    progress = True
+    while progress and calls < budget:
+        progress = False
+        for cand in simplifications(cur):
+            calls += 1
+            if calls > budget:
+                break
+            if not in_scope(cand):
+                continue
+            try:
+                bad = oracle(cand, run_impl(cand))
+            except Exception:  # noqa: BLE001
+                continue
+            # the class part of the key may change while shrinking (e.g. relax -> norelax): keep the failure kind
+            if any(k.rsplit(":", 1)[-1] == key.rsplit(":", 1)[-1] and case_class(cand) == case_class(case) for k, _ in bad):
+                cur = cand
+                progress = True
+                break
+    return cur
+
+
+def neighbours(case: dict[str, Any], rng: common.Rng):
+    """Failing-input search around a model/code disagreement: same system with other settings."""
+    for sc in SCALINGS:
+        if sc != case["mda"]["scaling"]:
+            yield _with(case, scaling=sc)
+    for t in ("1/1024", "1/1048576", "1/1073741824"):
+        if t != case["mda"]["tol"]:
+            yield _with(case, tol=t)
+    yield from simplifications(case)
+    for _ in range(20):
+        c = gen_case(rng, shape=case["shape"], kind="lin", cls=case["mda"]["cls"])
+        c["mda"].update({k: case["mda"][k] for k in ("accel", "omega", "scaling", "warm") if k in case["mda"]})
+        yield c
+
+
+# --------------------------------------------------------------------------- run
+
+
+def load_corpus() -> list[dict[str, Any]]:
+    d = common.CORPUS_DIR / PID
+    out = []
+    if d.is_dir():
+        for p in sorted(d.glob("*.json")):
+            out.append(json.loads(p.read_text())["case"])
+    return out
+
+
+def evaluate(res: Result, cases: list[dict[str, Any]], rng: common.Rng, scope: bool = True) -> None:
+    """Real code + oracle on every case; Lean replay + comparison on the replayable ones."""
+    lines: list[str] = []
+    spans: dict[int, tuple[int, int]] = {}
+    for k, c in enumerate(cases):
+        if replayable(c):
+            ls = protocol_lines(c)
+            spans[k] = (len(lines) + 2, len(lines) + len(ls))
+            lines += ls
+    answers = common.run_lean_driver(PID, lines) if lines else []
+    for k, case in enumerate(cases):
+        res.evaluations += 1
+        obs = run_impl(case)
+        kc = case_class(case)
+        m = case["mda"]
+        res.count("class=" + kc.split(":")[0])
+        res.count("accel=" + m["accel"])
+        res.count("scaling=" + m["scaling"])
+        res.count("shape=" + case["shape"] + "/" + case["discs"][0]["kind"])
+        res.count("relaxation=" + ("yes" if m["omega"] != "1" else "no"))
+        res.count("warm=" + str(bool(m["warm"])))
+        res.count(f"ndisc={len(case['discs'])}")
+        res.count("self-coupled=" + str(any(o in d["ins"] for d in case["discs"] for o in d["outs"])))
+        iters = [len(r.get("history", [])) for r in obs.get("runs", [])]
+        if any(i >= 2 for i in iters) or m["cls"] in ("MDAQuasiNewton", "MDAChain"):
+            res.nontrivial(json.dumps([case["discs"], case["order"], m, case["runs"]], sort_keys=True))
+        if not scope:
+            res.count("probe")
+            try:
+                if oracle(case, obs):
+                    res.count("probe-oracle-fails")
+            except Exception:  # noqa: BLE001
+                res.count("probe-oracle-error")
+            continue
+        bad = oracle(case, obs)
+        for tag in obs.get("not_judged", []):
+            res.count("not-judged:reported-non-convergence(broyden)")
+        res.sample({"class": kc, "mda": m, "iterations": iters, "oracle": "ok" if not bad else bad[0][1]})
+        for key, msg in bad:
+            if any(v.key == key for v in res.violations):
+                continue
+            small = shrink_case(case, key)
+            o2 = run_impl(small)
+            b2 = [mm for kk, mm in oracle(small, o2) if kk == key]
+            res.violate("oracle", key, b2[0] if b2 else msg, {"case": small if b2 else case, "impl": o2 if b2 else obs})
+        if k in spans:
+            a, b = spans[k]
+            diffs = compare_with_model(case, obs, answers[a:b])
+            res.count("replayed")
+            if not diffs:
+                res.traces_validated += 1
+                continue
+            res.disagreements += 1
+            res.count("disagreement:" + kc)
+            if bad:
+                continue
+            found = False
+            for nb in neighbours(case, rng):
+                if not in_scope(nb):
+                    continue
+                o2 = run_impl(nb)
+                b2 = oracle(nb, o2)
+                if b2:
+                    key, msg = b2[0]
+                    if not any(v.key == key for v in res.violations):
+                        small = shrink_case(nb, key)
+                        res.violate("oracle", key, msg, {"case": small, "impl": run_impl(small), "found_from": "neighbour of a model/code disagreement"})
+                    found = True
+                    break
+            if not found:
+                res.violate(
+                    "correspondence",
+                    "model-vs-impl:" + kc,
+                    "the real MDA and the exact replay of the Lean model disagree: " + diffs[0],
+                    {
+                        "case": case,
+                        "protocol_lines": [ln[:2000] for ln in protocol_lines(case)],
+                        "model_answers": [x[:2000] for x in answers[a:b]],
+                        "impl": obs,
+                        "diffs": diffs,
+                        "correspondence": "Driver/C06.lean `run` (GV.C06.execute)",
+                    },
+                )
+
+
+def gen_probe(rng: common.Rng) -> dict[str, Any]:
+    """Out-of-scope probes: elementary MDAs used directly on weakly coupled systems, extreme relaxation."""
+    case = gen_system(rng, "mixed", "lin")
+    case["mda"] = gen_mda(rng, case, rng.pick(["MDAGaussSeidel", "MDAJacobi"]))
+    case["mda"]["omega"] = rng.pick(["1", "2", "7/4"])
+    case["mda"]["warm"] = False
+    case["runs"] = [{"x": [rat(rng.dyadic(-4, 4, 2)) for _ in range(case["vars"]["x"])]}]
+    return case
+
+
+def run(ctx) -> Result:
+    res = Result(PID)
+    res.rule = (
+        "random contractive coupled systems (2-5 disciplines, variable sizes 1-3, strongly connected or several SCCs "
+        "with weak couplings, self-coupled disciplines, affine with dyadic coefficients and row sums <= 1/2, 1/4 or 1/8, or "
+        "non-linear t/(1+t^2), sin) x every MDA class of the factory (MDAChain with every inner MDA) x acceleration x "
+        "relaxation x 6 residual scalings x listing order x tolerance x warm start / second execution; a case is non-trivial "
+        "when the MDA iterates at least twice (or is a SciPy / chained solve); distinct by system+settings+inputs"
+    )
+    res.assumptions = [
+        "systems with weakly coupled disciplines are solved by MDAJacobi or through MDAChain (the other elementary MDAs only resolve strong couplings; MDANewtonRaphson rejects them)",
+        "relaxation factors w with |1-w| + w*K <= 7/8 (the relaxed map is a contraction); max_mda_iter in {60, 100} suffices for these rates",
+        "tolerances relative to an initial residual are >= 2^-30 (2^-16 inside MDASequential / MDAGSNewton) so that tol*scale stays above the resolution of floats",
+        "SciPy Broyden runs that GEMSEO itself reports as not converged are not judged",
+    ]
+    rng = ctx.rng
+    corpus = load_corpus()
+    evaluate(res, corpus, rng)
+    res.count("corpus", len(corpus))
+    n_all = 4000 if ctx.thorough else 360
+    n_rep = 4000 if ctx.thorough else 240
+    batch = 200
+    import time
+
+    done = 0
+    while done < n_all and time.time() < ctx.deadline:
+        evaluate(res, [gen_case(rng) for _ in range(min(batch, n_all - done))], rng)
+        done += batch
+    done = 0
+    while done < n_rep and time.time() < ctx.deadline:
+        cases = []
+        while len(cases) < min(batch, n_rep - done):
+            c = gen_case(rng, kind="lin", cls=rng.pick(["MDAJacobi", "MDAGaussSeidel", "MDANewtonRaphson"]))
+            if replayable(c):
+                cases.append(c)
+        evaluate(res, cases, rng)
+        done += batch
+    evaluate(res, [gen_probe(rng) for _ in range(100 if ctx.thorough else 20)], rng, scope=False)
+    return res
+
+
+def replay(path: str) -> int:
+    data = json.loads(open(path).read())
+    rp = data.get("replay", data)
+    case = rp["case"]
+    obs = run_impl(case)
+    bad = oracle(case, obs)
+    print("case:", json.dumps(case["mda"]), "order", case["order"], "shape", case["shape"])
+    for r in obs.get("runs", []):
+        print("impl:", {k: r.get(k) for k in ("out", "normed", "exc")}, "iterations:", len(r.get("history", [])))
+    if replayable(case):
+        ans = common.run_lean_driver(PID, protocol_lines(case))[2:]
+        for a in ans:
+            print("model:", a[:300])
+        for d in compare_with_model(case, obs, ans):
+            print("MODEL/CODE DIFFERENCE:", d)
+    for k, msg in bad:
+        print("ORACLE FAILS:", k, msg)
+    return 1 if bad else 0
